@@ -123,6 +123,15 @@ def run_impl(case, workdir=None):
     out = {"unmodified": None}
     with np.errstate(all="ignore"):
         bulk = BulkObservables(evs)
+        # earlier calls on the SAME object (other widths / rapidity flavours / spectra): results must not depend on them
+        for pre in case.get("prelude", []):
+            try:
+                if pre["m"].startswith("mid"):
+                    getattr(bulk, pre["m"])(H.num(pre["width"]), pre["quantity"])
+                else:
+                    getattr(bulk, pre["m"])()
+            except Exception:
+                pass
         if case["kind"] == "yield":
             b = case["bins"]
             t = DEFAULT_BINS[case["method"]] if b is None else bins_arg(b)
@@ -304,7 +313,22 @@ def gen_case(rng):
                                "pt": rng.choice([0.5, 1.0, 2.0, 0.25]), "mt": rng.choice([0.5, 1.5, 2.0, 1.25])}})
     if rng.random() < 0.03:
         evs = []
-    return {"kind": "mid", "width": w, "quantity": q, "events": evs}
+    case = {"kind": "mid", "width": w, "quantity": q, "events": evs}
+    if rng.random() < 0.5:
+        # the object has been used before: same width with another flavour, same flavour with another width, a spectrum
+        pre = []
+        for _ in range(rng.choice([1, 2, 3])):
+            r = rng.random()
+            m = rng.choice(["mid_rapidity_yield", "mid_rapidity_mean_pT", "mid_rapidity_mean_mT"])
+            if r < 0.55:
+                pre.append({"m": m, "width": rng.choice([w, float(w), int(w) if float(w) == int(w) else w]),
+                            "quantity": rng.choice([x for x in ("rapidity", "pseudorapidity", "spacetime_rapidity") if x != q])})
+            elif r < 0.85:
+                pre.append({"m": m, "width": rng.choice([0.5, 1.0, 2.0, 8.0]), "quantity": q})
+            else:
+                pre.append({"m": rng.choice(["dNdy", "dNdpT", "dNdEta", "dNdmT"])})
+        case["prelude"] = pre
+    return case
 
 
 # ----------------------------------------------------------------------------- property oracle (real code)
@@ -423,7 +447,8 @@ def correspondence(ctx, model_ok=True):
         cases.append(gen_case(ctx.rng))
     gots = [run_impl(c, ctx.work) for c in cases]
     dist = {"kind": {}, "method": {}, "quantity": {}, "events": {}, "empty_first_event": 0, "empty_other_event": 0,
-            "exceptions": 0, "explicit_bins": 0, "default_bins": 0, "real_particles": 0, "prescribed_particles": 0}
+            "exceptions": 0, "explicit_bins": 0, "default_bins": 0, "real_particles": 0, "prescribed_particles": 0,
+            "object_used_before": 0}
     keys = set()
     for c, g in zip(cases, gots):
         dist["kind"][c["kind"]] = dist["kind"].get(c["kind"], 0) + 1
@@ -438,6 +463,7 @@ def correspondence(ctx, model_ok=True):
             dist["quantity"][c["quantity"]] = dist["quantity"].get(c["quantity"], 0) + 1
             dist["exceptions"] += any("exc" in g[k] for k in ("yield", "pt", "mt"))
             nontrivial = "value" in g["yield"] and g["yield"]["value"] != 0
+        dist["object_used_before"] += bool(c.get("prelude"))
         dist["empty_first_event"] += bool(c["events"]) and c["events"][0] == []
         dist["empty_other_event"] += any(e == [] for e in c["events"][1:])
         dist["real_particles"] += sum(1 for e in c["events"] for s in e if "obs" not in s)
@@ -450,7 +476,8 @@ def correspondence(ctx, model_ok=True):
                    "observations (values exactly on edges and on +-width/2); dNdy/dNdpT/dNdEta/dNdmT with default, tuple and explicit "
                    "unequal-width binnings followed by write_to_file of the result; mid_rapidity_yield/mean_pT/mean_mT with several "
                    "widths and the three rapidity flavours; compared inside Coq: all arrays of the returned histogram, the parsed CSV, the "
-                   "three mid-rapidity numbers, exception classes; the inputs are snapshotted before/after; non-trivial = no exception "
+                   "three mid-rapidity numbers, exception classes; half of the mid-rapidity cases call the same BulkObservables object beforehand with "
+                   "the same width and another flavour / another width / a spectrum (results must not depend on earlier calls); the inputs are snapshotted before/after; non-trivial = no exception "
                    "and a non-zero result; distinct by canonical JSON",
            "samples": cases[:3], "model_runner": "Eval vm_compute in generated cases files (sharded coqc), comparison by Model/BulkCheck.v",
            "failures": [], "broken": []}
